@@ -6,6 +6,7 @@ import (
 	"bytes"
 	"errors"
 	"fmt"
+	"maps"
 	"slices"
 	"sort"
 	"strconv"
@@ -57,7 +58,7 @@ var vpProbeMu sync.Mutex
 
 func vpH_tv_stdlib() {
 	s := vpStrUpTo(3, "a/# ")
-	switch vpInt(0, 35) {
+	switch vpInt(0, 55) {
 	case 0:
 		vpAssert(strings.Count(s, "/") == vpCountByte(s, '/'), "strings.Count")
 	case 1:
@@ -167,6 +168,67 @@ func vpH_tv_stdlib() {
 		vpAssert(n == len(s)-vpCountByte(s, '/'), "strings.FieldsFunc")
 	case 35:
 		vpAssert(strings.TrimLeft(s, "a/") == strings.TrimLeftFunc(s, func(r rune) bool { return r == 'a' || r == '/' }), "strings.TrimLeft cutset")
+	case 36:
+		vpAssert(strconv.FormatBool(len(s) > 1) == fmt.Sprint(len(s) > 1), "strconv.FormatBool")
+	case 37:
+		vpAssert(strings.Replace(s, "/", "", 1) == strings.Join(strings.SplitN(s, "/", 2), ""), "strings.Replace n=1")
+	case 38:
+		xs := strings.SplitAfter(s, "/")
+		vpAssert(strings.Join(xs, "") == s, "strings.SplitAfter")
+	case 39:
+		xs := []string{"b", s, "a"}
+		vpAssert((slices.Index(xs, s) == 1) == (s != "b"), "slices.Index")
+	case 40:
+		xs := []string{"x", s, "y"}
+		slices.Reverse(xs)
+		vpAssert(xs[0] == "y" && xs[1] == s && xs[2] == "x", "slices.Reverse")
+	case 41:
+		xs := slices.Compact([]string{s, s, "q", "q", s})
+		vpAssert((s == "q" && len(xs) == 1) || (s != "q" && len(xs) == 3), "slices.Compact")
+	case 42:
+		xs := slices.Insert([]string{"a", "b"}, 1, s)
+		vpAssert(len(xs) == 3 && xs[1] == s && xs[2] == "b", "slices.Insert")
+	case 43:
+		xs := slices.Delete([]string{"a", s, "b"}, 1, 2)
+		vpAssert(len(xs) == 2 && xs[0] == "a" && xs[1] == "b", "slices.Delete")
+	case 44:
+		xs := []string{"a", "c", "e"}
+		i := sort.SearchStrings(xs, s)
+		vpAssert(i >= 0 && i <= 3 && (i == 3 || xs[i] >= s) && (i == 0 || xs[i-1] < s), "sort.SearchStrings")
+	case 45:
+		_, found := slices.BinarySearch([]string{"a", "c", "e"}, s)
+		vpAssert(found == (s == "a" || s == "c" || s == "e"), "slices.BinarySearch")
+	case 46:
+		e1 := errors.New("a")
+		j := errors.Join(e1, nil, errors.New("b"))
+		vpAssert(j != nil && errors.Is(j, e1), "errors.Join")
+	case 47:
+		vpAssert(fmt.Sprint([]string{"a", s}) == "[a "+s+"]", "fmt.Sprint of a slice")
+	case 48:
+		ok := len(s) > 0 && s[0] >= 'a' && s[0] <= 'z'
+		vpAssert(len(s) == 0 || unicode.IsLower(rune(s[0])) == ok, "unicode.IsLower (ASCII)")
+	case 49:
+		vpAssert(len(s) == 0 || unicode.IsDigit(rune(s[0])) == (s[0] >= '0' && s[0] <= '9'), "unicode.IsDigit (ASCII)")
+	case 50:
+		vpAssert(len(s) == 0 || unicode.IsLetter(rune(s[0])) == (s[0] == 'a'), "unicode.IsLetter (ASCII)")
+	case 51:
+		vpAssert(strings.ContainsFunc(s, func(r rune) bool { return r == '#' }) == (vpFirstIdx(s, '#') >= 0), "strings.ContainsFunc")
+	case 52:
+		r := strings.NewReplacer("/", "-", "#", "+")
+		t := r.Replace(s)
+		vpAssert(len(t) == len(s) && vpCountByte(t, '-') == vpCountByte(s, '/') && vpCountByte(t, '/') == 0, "strings.NewReplacer (byte replacer)")
+	case 53:
+		m := map[string]int{"a": 1, s: 2}
+		ks := slices.Sorted(maps.Keys(m))
+		vpAssert(len(ks) == len(m) && slices.IsSorted(ks), "maps.Keys / slices.Sorted")
+	case 54:
+		xs := slices.Clone([]string{s, "b"})
+		ys := append(xs[:1:1], "c")
+		vpAssert(xs[1] == "b" && ys[1] == "c" && slices.Equal(xs, []string{s, "b"}), "slices.Clone / full slice expressions")
+	case 55:
+		var target *vpProbeErr
+		err := fmt.Errorf("w: %w", &vpProbeErr{s})
+		vpAssert(errors.As(err, &target) && target.s == s, "errors.As")
 	case 33:
 		m := map[string]int{s: 1, "zz": 2}
 		var ks []string
@@ -177,6 +239,10 @@ func vpH_tv_stdlib() {
 		vpAssert(len(ks) == 2 && ks[0] <= ks[1], "sorted map keys")
 	}
 }
+
+type vpProbeErr struct{ s string }
+
+func (e *vpProbeErr) Error() string { return e.s }
 
 func cmpStr(a, b string) int {
 	if a < b {
